@@ -89,6 +89,10 @@ func main() {
 	// normalisation: helpers that are new relative to the baseline tree are inlined at their call sites
 	var normNotes []string
 	if bl := core.LoadBaseline(filepath.Join(*verif, "baseline.json")); bl != nil && os.Getenv("VCHECK_NO_NORMALIZE") == "" {
+		// function literals called on the spot (the per-trip defer idiom) run in place
+		var ni []string
+		ov, ni = core.InlineIIFE(abs, ov)
+		normNotes = append(normNotes, ni...)
 		if core.NamesDiffer(abs, ov, bl) {
 			var n0, n1 []string
 			ov, n0 = core.UnbundleParams(abs, ov, *goarch, bl)
